@@ -30,13 +30,15 @@ MeekPost(T, a) ==
 B02_nonneg(T) == {k \in 1 .. NA(T) : LET a == T.acts[k] IN (\E c \in Cand(T) : Neg(a.vote[c])) \/ Neg(a.nt) \/ Neg(a.residual)}
 B02_upper(T) == IF T.fam = "qpq" THEN {} ELSE {k \in 1 .. NA(T) : BLt(T.nSb, TotalAt(T, T.acts[k]))}
 B02_lower(T) == IF T.fam # "greg" \/ Len(T.eq) > 0 THEN {} ELSE
-  {k \in 1 .. NA(T) : BLt(TotalAt(T, T.acts[k]), BSub(T.nSb, BSmall(2 * T.n * NSurplus(T, k))))}
+  {k \in 1 .. NA(T) : BLt(TotalAt(T, T.acts[k]), BSub(T.nSb, BMul(BSmall(2 * NSurplus(T, k)), T.nb)))}
 B02_meek(T) == IF T.fam # "meek" \/ Len(T.eq) > 0 THEN {} ELSE
   {k \in 1 .. NA(T) : LET a == T.acts[k] IN
      ~BEq(TotalAt(T, a), T.nSb) /\ (IF T.rule = "meek-prf" THEN MeekPost(T, a) ELSE TRUE)}
 (* quota: q - eps = floor(x / (s+1)), stated relationally; x = n*S (greg, begin) or the votes still credited (Meek points) *)
 QuotaOK(T, q, x) ==
-  IF T.rule \in {"scotland", "mpls"} \/ T.intq THEN BEq(q, BMul(BSmall((T.n \div (T.seats + 1)) + 1), T.Sb))
+  IF T.rule \in {"scotland", "mpls"} \/ T.intq
+  THEN (* q = (floor(n/(s+1)) + 1) * S, stated relationally: (q - S)(s+1) <= n*S < q(s+1) *)
+       BLe(BMul(BSub(q, T.Sb), BSmall(T.seats + 1)), T.nSb) /\ BLt(T.nSb, BMul(q, BSmall(T.seats + 1)))
   ELSE BIsFloorDiv(BSub(q, IF T.exactq THEN BZero ELSE BSmall(1)), x, BSmall(T.seats + 1))
 B04_quota(T) ==
   {k \in 1 .. NA(T) : LET a == T.acts[k] IN
